@@ -505,8 +505,8 @@ HXIstaccess(accrec_t *access_rec, int16 acc_mode)
 
 done:
     if (ret_value == FAIL) { /* Error condition cleanup */
-        if (access_rec != NULL)
-            HIrelease_accrec_node(access_rec);
+        /* the access record itself is released by the caller (Hstartaccess): releasing it */
+        /* here as well would put it on the free list twice */
         if (info != NULL) { /* free file name first */
             free(info->extern_file_name);
             free(info);
